@@ -10,6 +10,7 @@
 -/
 import NPModel.Refine.Repack
 import NPModel.Spec.Frame
+import NPModel.Refine.Repacked
 namespace NP.C07
 open NP
 variable {α : Type}
@@ -61,6 +62,29 @@ theorem spec_row_missing_iff (keep : Table α → Nat → Bool) (t : Table α) :
   unfold Spec.filterRow
   simp only
   split <;> simp_all
+
+/-- **The re-packing step of the frame, row by row** (`_set_filtered_flat_df`, the common last step
+    of `query`, `dropna` and `sort_values` on a nested layer): for a frame of `n` rows and the
+    records each row keeps (column-major per-row lists of common lengths, indexed by the row
+    ordinals), the implementation model — packer, label lookup of the ordinals, `take` with
+    `allow_fill` — succeeds and the frame's nested column becomes exactly those per-row tables:
+    a row that keeps no record is MISSING, every other row holds its kept records in order, for
+    every field at once; rows are never merged, moved or reordered (row `i` of the result is
+    built from row `i` of the input only).  Any number of rows, fields and records. -/
+theorem repack_step_row_by_row (F : NFrame α) (nest : String) (cols : List (String × String × List (List α)))
+    (lens : List Nat) (hn : lens.length = F.index.length) (hcols : ∀ c ∈ cols, c.2.2.map List.length = lens)
+    (hne : cols ≠ []) :
+    ∃ col, F.setFilteredFlatDf nest (ordFlat cols lens) = .ok (F.setCol nest (.nest col)) ∧
+      col.rows = repackedRows cols lens :=
+  setFilteredFlatDf_rows F nest cols lens hn hcols hne
+
+/-- non-vacuity of `repack_step_row_by_row`: three rows keeping 2, 0 and 1 records of two fields -/
+example :
+    let cols : List (String × String × List (List Nat)) :=
+      [("a", "int64", [[1, 2], [], [3]]), ("b", "int64", [[7, 8], [], [9]])]
+    (∀ c ∈ cols, c.2.2.map List.length = [2, 0, 1]) ∧
+    repackedRows cols [2, 0, 1] = [some [("a", [1, 2]), ("b", [7, 8])], none, some [("a", [3]), ("b", [9])]] := by
+  decide
 
 /-- non-vacuity: three rows (one of them empty), a mask keeping records of the first row only -/
 example :
